@@ -13,6 +13,7 @@ package c17
 
 import (
 	"fmt"
+	"regexp"
 	"strings"
 	"sync/atomic"
 	"testing"
@@ -167,6 +168,17 @@ func genE2E(t *rapid.T) e2eCase {
 
 var e2eSeq int64
 
+// the backend's scripted failure: a code and message nothing else in the proxy or the fixture produces
+const (
+	e2eScriptedCode = 1644
+	e2eScriptedMsg  = "c17-scripted-failure"
+)
+
+var e2eTransportRe = regexp.MustCompile(`(?i)time ?out|timed out|deadline|connection|broken pipe|\bEOF\b|reset by peer|create resource|bad conn|invalid conn|i/o|\bpool\b|no alive|backendconn|get conn|unavailable|refused`)
+
+// e2eTransportLike: the error text speaks of the proxy's path to its backend, not of the statement.
+func e2eTransportLike(msg string) bool { return e2eTransportRe.MatchString(msg) }
+
 // e2eNorm removes what a MySQL server strips from a query before parsing it:
 // surrounding whitespace and trailing semicolons.
 func e2eNorm(sql string) string {
@@ -270,7 +282,7 @@ func checkE2E(c e2eCase) (o pbt.Outcome) {
 				return fakemysql.Reply{Unhandled: true}
 			}
 			if failTag != "" && strings.Contains(sql, failTag) {
-				return fakemysql.Reply{Err: &fakemysql.SQLErr{Code: 1146, State: "42S02", Message: "scripted failure"}}
+				return fakemysql.Reply{Err: &fakemysql.SQLErr{Code: e2eScriptedCode, State: "45000", Message: e2eScriptedMsg + " " + tag(c.Fail)}}
 			}
 			// answer with the tag found in the statement so that the client can attribute the result
 			j := i
@@ -287,7 +299,11 @@ func checkE2E(c e2eCase) (o pbt.Outcome) {
 			return fakemysql.Reply{Affected: 100 + k}
 		}
 	}
-	ns := proxyfix.BaseNamespace(nsName, cl.SliceConfigs(specs), []*models.User{{UserName: user, Password: "pw", RWFlag: 2, RWSplit: 0}})
+	slices := cl.SliceConfigs(specs)
+	for _, sl := range slices {
+		sl.HandshakeTimeout = 30000 // ms; the default of 500 ms is easily missed on a loaded machine
+	}
+	ns := proxyfix.BaseNamespace(nsName, slices, []*models.User{{UserName: user, Password: "pw", RWFlag: 2, RWSplit: 0}})
 	ns.SupportMultiQuery = true
 	if err := p.Install(ns); err != nil {
 		o.Skip = "fixture: install: " + err.Error()
@@ -301,7 +317,7 @@ func checkE2E(c e2eCase) (o pbt.Outcome) {
 		return
 	}
 	defer cli.Close()
-	cli.Timeout = 20 * time.Second
+	cli.Timeout = 90 * time.Second
 
 	full := text.String()
 	results, ioErr := cli.Query(full)
@@ -329,25 +345,41 @@ func checkE2E(c e2eCase) (o pbt.Outcome) {
 		o.Labels = append(o.Labels, "has_empty_piece")
 	}
 
-	desc := fmt.Sprintf("text %q; pieces %q; fail=%d; backend received %q", full, pieces, c.Fail, received)
-
 	// client side: s successes, then optionally an error
 	succ := 0
 	var cliErr string
+	var lastErr *rawclient.Error
+	var seen []string
 	for k, r := range results {
 		if r.Err != nil {
-			cliErr = r.Err.Error()
+			cliErr, lastErr = r.Err.Error(), r.Err
+			seen = append(seen, fmt.Sprintf("#%d ERR %d (%s) %q", k, r.Err.Code, r.Err.State, r.Err.Message))
 			if k != len(results)-1 {
-				o.Violation = fmt.Sprintf("results continue after an error packet [%s]", desc)
+				o.Violation = fmt.Sprintf("results continue after an error packet: %s", strings.Join(seen, ", "))
 				return
 			}
 			break
+		}
+		if r.OK {
+			seen = append(seen, fmt.Sprintf("#%d OK affected=%d", k, r.Affected))
+		} else {
+			var cells []string
+			for _, row := range r.Rows {
+				for _, cell := range row {
+					cells = append(cells, string(cell))
+				}
+			}
+			seen = append(seen, fmt.Sprintf("#%d ROWS %d %q", k, len(r.Rows), cells))
 		}
 		succ++
 	}
 	if ioErr != nil {
 		cliErr = "connection: " + ioErr.Error()
+		seen = append(seen, "then connection error: "+ioErr.Error())
 	}
+	desc := fmt.Sprintf("text %q; pieces %q; fail=%d; backend received %q; client saw [%s]", full, pieces, c.Fail, received, strings.Join(seen, ", "))
+	// the error is the scripted one only if the client sees exactly the backend's code and message
+	scripted := ioErr == nil && lastErr != nil && c.Fail >= 0 && lastErr.Code == e2eScriptedCode && strings.Contains(lastErr.Message, e2eScriptedMsg+" "+tag(c.Fail))
 
 	// 1. the backend saw a prefix of the pieces, each unchanged
 	for k, got := range received {
@@ -357,13 +389,6 @@ func checkE2E(c e2eCase) (o pbt.Outcome) {
 		}
 		if e2eNorm(got) != e2eNorm(pieces[k]) {
 			detail := fmt.Sprintf("statement %d reached the backend as %q, the piece is %q [%s]", k, got, strings.TrimSpace(pieces[k]), desc)
-			// C17-E1: a text with exactly one non-empty piece takes the single-statement path of
-			// doMultiStmts, which executes the ORIGINAL text (separators, empty and comment-only
-			// pieces included) instead of the piece
-			if n == 1 && k == 0 && len(received) == 1 && empties > 0 && e2eNorm(got) == e2eNorm(full) {
-				o.Known, o.KnownWhat = "C17-E1", detail
-				return
-			}
 			o.Violation = detail
 			return
 		}
@@ -385,7 +410,12 @@ func checkE2E(c e2eCase) (o pbt.Outcome) {
 			return
 		}
 	}
-	// 3. how far execution went
+	// 3. nothing runs after the piece the backend failed, whatever the client was told
+	if c.Fail >= 0 && len(received) > c.Fail+1 {
+		o.Violation = fmt.Sprintf("piece %d failed on the backend, yet %d statements reached the backend [%s]", c.Fail, len(received), desc)
+		return
+	}
+	// 4. how far execution went
 	switch {
 	case cliErr == "":
 		if c.Fail >= 0 {
@@ -397,15 +427,19 @@ func checkE2E(c e2eCase) (o pbt.Outcome) {
 			return
 		}
 		o.Labels = append(o.Labels, "all_executed")
-	case c.Fail >= 0 && succ == c.Fail:
-		// the scripted failure: it reached the backend, nothing after it did
-		if len(received) != c.Fail+1 {
-			o.Violation = fmt.Sprintf("piece %d failed; the backend must have received exactly %d statements, got %d [%s]", c.Fail, c.Fail+1, len(received), desc)
+	case scripted:
+		// the backend's own error: it belongs to piece Fail, which reached the backend, and nothing after it did
+		if succ != c.Fail || len(received) != c.Fail+1 {
+			o.Violation = fmt.Sprintf("the error of failing piece %d arrived after %d results with %d statements at the backend [%s]", c.Fail, succ, len(received), desc)
 			return
 		}
 		o.Labels = append(o.Labels, "stopped_at_scripted_failure")
 	case c.Fail >= 0 && succ > c.Fail:
 		o.Violation = fmt.Sprintf("execution continued after failing piece %d: %d successful results, then %s [%s]", c.Fail, succ, cliErr, desc)
+		return
+	case ioErr != nil || e2eTransportLike(cliErr):
+		// the proxy could not reach its backend in time (pool wait, dial/handshake, socket): says nothing about splitting
+		o = pbt.Outcome{Skip: "inconclusive: transport or timeout error between proxy and backend"}
 		return
 	default:
 		// the proxy itself refused piece number succ (a rejection is allowed): nothing after it may run
